@@ -43,10 +43,11 @@ VARIABLES S, D, Fl, A, X, F,      \* node ids: started, completed, failed, activ
           stale,                  \* Watch/Alarm nodes whose registered interrupt outlived a reset of their flags (one clause at the
                                   \* reset; what the orphaned interrupt does afterwards is not judged again)
           calls,                  \* <<call node, macro node>>: macro calls in progress
+          defsEver,               \* macro nodes whose definition was registered in this run
           tainted,                \* a live edit lost interpretation state: the rest of this run is not a behaviour of the design
           tid, l, viols, done
 mvars == <<S, D, Fl, A, X, F, L, E, R, RegEver, began, inited, openCmd, defs, running, justEnded, mustRearm, startAt,
-           injPending, Dt, ms, tick, inTick, ranTick, idle, edits, pendAct, p, tainted, stale, calls>>
+           injPending, Dt, ms, tick, inTick, ranTick, idle, edits, pendAct, p, tainted, stale, calls, defsEver>>
 tvars == <<mvars, tid, l, viols, done>>
 T == Traces[tid].ev
 SetOfSeq(q) == {q[i] : i \in DOMAIN q}
@@ -65,12 +66,12 @@ CeilTick(d) == ((d + TickMs - 1) \div TickMs) * TickMs
 St == [S |-> S, D |-> D, Fl |-> Fl, A |-> A, X |-> X, F |-> F, L |-> L, E |-> E, R |-> R, RegEver |-> RegEver, began |-> began,
        inited |-> inited, openCmd |-> openCmd, defs |-> defs, running |-> running, justEnded |-> justEnded,
        mustRearm |-> mustRearm, startAt |-> startAt, injPending |-> injPending, Dt |-> Dt, ms |-> ms, tick |-> tick,
-       inTick |-> inTick, ranTick |-> ranTick, idle |-> idle, edits |-> edits, pendAct |-> pendAct, p |-> p, tainted |-> tainted, stale |-> stale, calls |-> calls]
+       inTick |-> inTick, ranTick |-> ranTick, idle |-> idle, edits |-> edits, pendAct |-> pendAct, p |-> p, tainted |-> tainted, stale |-> stale, calls |-> calls, defsEver |-> defsEver]
 
 Fresh == [S |-> {}, D |-> {}, Fl |-> {}, A |-> {}, X |-> {}, F |-> {}, L |-> {}, E |-> {}, R |-> {}, RegEver |-> {}, began |-> {},
           inited |-> {}, openCmd |-> {}, defs |-> {}, running |-> {}, justEnded |-> {}, mustRearm |-> {}, startAt |-> {},
           injPending |-> {}, Dt |-> {}, ms |-> 0, tick |-> -1, inTick |-> FALSE, ranTick |-> FALSE, idle |-> 0, edits |-> 0,
-          pendAct |-> "", p |-> [t |-> -1, started |-> FALSE, runId |-> 0, state |-> "Stopped"], tainted |-> FALSE, stale |-> {}, calls |-> {}]
+          pendAct |-> "", p |-> [t |-> -1, started |-> FALSE, runId |-> 0, state |-> "Stopped"], tainted |-> FALSE, stale |-> {}, calls |-> {}, defsEver |-> {}]
 
 Which(e, a, b, c) == IF e.cls = "CallMacroNode" THEN "C41." \o c ELSE IF e.inj THEN "C14." \o b
                      ELSE IF edits > 0 THEN "C01." \o a ELSE "C02." \o b
@@ -86,7 +87,8 @@ FlagClauses(e) ==
                ~e.same \/ e.cls \in CondCls \/ e.cls = "InjectedNode" \/ e.ws \/ (edits > 0 /\ e.n \notin D)>>,
              <<"C02.order@after-" \o e.prevCls \o e.suffix,
                \/ e.same \/ e.prev = "" \/ e.prev \in (D \cup Fl \cup X \cup RegEver)
-               \/ (e.prevCls \in AsyncCls /\ e.prev \in S)>>,      \* commands run in the background once passed to the engine
+               \/ (e.prevCls \in AsyncCls /\ e.prev \in S)
+               \/ (e.prevCls = "MacroNode" /\ \E d \in defsEver : d = e.prev)>>,     \* a call resets the flags of the definition it runs      \* commands run in the background once passed to the engine
              <<"C02.parent-started@" \o e.pcls \o e.suffix,
                \/ e.same \/ e.parent = "" \/ e.parent \in S \/ (e.pcls = "MacroNode" /\ e.parent \in running)
                \/ (e.cls \in CondCls /\ e.n \in RegEver)>>,       \* a registered Watch/Alarm lives on after its scope completed
@@ -111,14 +113,15 @@ FlagClauses(e) ==
                e.tracked /\ e.cls # "MacroNode" => e.n \in began>>,
              <<"C02.trailing-whitespace-passed@" \o e.site, ~(e.ws /\ e.trail)>>,
              <<"C05.block-completes-only-after-end" \o e.suffix, Blind \/ (e.cls = "BlockNode" => e.n \in E)>>,
-             <<"C05.end-block-ends-innermost" \o e.suffix,
-               Blind \/ (e.cls = "EndBlockNode" => (IF Active \cup {x \in L : x[1] \in justEnded} = {} THEN justEnded = {}
-                                                     ELSE Cardinality(justEnded) = 1))>>,
+             <<"C05.end-block-ends-innermost" \o e.suffix,      \* the innermost locked block, and nothing else, is (or already was) ended
+               Blind \/ (e.cls = "EndBlockNode" => (IF L = {} THEN justEnded = {}
+                                                     ELSE justEnded \subseteq {Innermost(L)[1]} /\ Innermost(L)[1] \in E))>>,
              <<"C05.end-blocks-ends-all" \o e.suffix, Blind \/ (e.cls = "EndBlocksNode" => Active = {})>> >>
       [] e.f = "activated" /\ e.on ->
           << <<"C04.activated-without-condition@" \o e.site, e.condNow \in {"True", "unknown"} \/ e.n \in F>>,
              <<"C04.activated-after-cancel@" \o e.site, e.n \notin X>>,
-             <<"C04.activated-needs-registration@" \o e.site, e.n \in Ids(R)>> >>
+             <<"C04.activated-needs-registration@" \o e.site,     \* (an interrupt aborted by End block still gets its turn in that tick)
+               e.n \in Ids(R) \/ blocks \cap E # {}>> >>
       [] e.f = "lock_acquired" /\ e.on ->
           << <<"C05.injected-block-cannot-be-ended", ~e.inj>>,      \* it is invisible to End block and to the lock of other blocks
              <<"C05.locked-blocks-form-a-chain" \o e.suffix, Blind \/ e.inj \/ Ids(L) \subseteq blocks>>,
@@ -127,7 +130,7 @@ FlagClauses(e) ==
           << <<"C05.lock-released-only-after-end", Blind \/ e.n \in E \/ e.rep>> >>
       [] e.f = "block_ended" /\ e.on ->
           << <<"C05.ended-block-was-active", Blind \/ e.n \in Ids(Active)>>,
-             <<"C05.end-block-ends-innermost", Blind \/ (Active # {} => Innermost(Active)[1] = e.n)>> >>
+             <<"C05.end-block-ends-innermost", Blind \/ e.cls # "BlockNode" \/ (L # {} => Innermost({x \in L : x[1] \notin E \/ x[1] = e.n})[1] = e.n)>> >>
       [] e.f = "run_started_count" ->
           << <<"C41.recursed", e.n \notin running>>,
              <<"C41.runs-latest-definition", <<e.args, e.n>> \in defs>> >>
@@ -220,7 +223,7 @@ TickEndClauses(e) ==
 (* ---- requests --------------------------------------------------------------------------------------------------------------- *)
 EditClauses(e) ==
     LET touched == SetOfSeq(e.changed) \cup SetOfSeq(e.removed)
-        preS == SetOfSeq(e.preF.started) \cup SetOfSeq(e.preF.completed) \cup SetOfSeq(e.preF.failed)
+        preS == (SetOfSeq(e.preF.started) \cup SetOfSeq(e.preF.completed)) \ SetOfSeq(e.preF.failed)    \* a failed line may be repaired
         live == p.started /\ "root" \in SetOfSeq(e.preF.started)
         macroHit == touched \cap SetOfSeq(e.macroLines) # {}
         Keeps(k) == SetOfSeq(e.preF[k]) \subseteq SetOfSeq(e.postF[k])
@@ -281,12 +284,12 @@ Apply(s) ==
     /\ RegEver' = s.RegEver /\ began' = s.began /\ inited' = s.inited /\ openCmd' = s.openCmd /\ defs' = s.defs
     /\ running' = s.running /\ justEnded' = s.justEnded /\ mustRearm' = s.mustRearm /\ startAt' = s.startAt
     /\ injPending' = s.injPending /\ Dt' = s.Dt /\ ms' = s.ms /\ tick' = s.tick /\ inTick' = s.inTick /\ ranTick' = s.ranTick
-    /\ idle' = s.idle /\ edits' = s.edits /\ pendAct' = s.pendAct /\ p' = s.p /\ tainted' = s.tainted /\ stale' = s.stale /\ calls' = s.calls
+    /\ idle' = s.idle /\ edits' = s.edits /\ pendAct' = s.pendAct /\ p' = s.p /\ tainted' = s.tainted /\ stale' = s.stale /\ calls' = s.calls /\ defsEver' = s.defsEver
 
 TInit == /\ S = {} /\ D = {} /\ Fl = {} /\ A = {} /\ X = {} /\ F = {} /\ L = {} /\ E = {} /\ R = {} /\ RegEver = {}
          /\ began = {} /\ inited = {} /\ openCmd = {} /\ defs = {} /\ running = {} /\ justEnded = {} /\ mustRearm = {}
          /\ startAt = {} /\ injPending = {} /\ Dt = {} /\ ms = 0 /\ tick = -1 /\ inTick = FALSE /\ ranTick = FALSE /\ idle = 0
-         /\ edits = 0 /\ pendAct = "" /\ p = Fresh.p /\ tainted = FALSE /\ stale = {} /\ calls = {}
+         /\ edits = 0 /\ pendAct = "" /\ p = Fresh.p /\ tainted = FALSE /\ stale = {} /\ calls = {} /\ defsEver = {}
          /\ tid \in 1..Len(Traces) /\ l = 1 /\ viols = {} /\ done = FALSE
 
 Step ==
@@ -304,7 +307,8 @@ Step ==
               /\ Apply(IF e.state = "started"
                        THEN [s EXCEPT !.began = @ \cup {e.n},
                                       !.startAt = IF e.n \in s.began THEN @ ELSE Without(@, e.n) \cup {<<e.n, s.ms, s.idle, s.edits>>},
-                                      !.defs = IF e.cls = "MacroNode" THEN {d \in @ : d[1] # e.args} \cup {<<e.args, e.n>>} ELSE @]
+                                      !.defs = IF e.cls = "MacroNode" THEN {d \in @ : d[1] # e.args} \cup {<<e.args, e.n>>} ELSE @,
+                                      !.defsEver = IF e.cls = "MacroNode" THEN @ \cup {e.n} ELSE @]
                        ELSE s)
          [] e.e = "thr" -> /\ viols' = Judge(ThrClauses(e)) /\ Apply(s)
          [] e.e = "ta" ->
